@@ -19,17 +19,36 @@ package run
 //	    below a C on the path (which elements pass is schedule dependent, how many is not), "?" when a Filter lies
 //	    below that (even the number depends on the schedule).  Ids are read after the
 //	    terminal operation returned (it waits for the goroutines of a concurrent map).
+//	    An <order> may also be an OVERLAPPING materialisation (round 7):
+//	      zip <i>,<j>[,<k>..] <i>,<j> ...    for every group: the forest is rebuilt and stream.ZipN over the listed
+//	            stream values (also the same value twice, parent and child, siblings) is collected: all of them are
+//	            open at the same time
+//	      nest <i>,<j>[,<k>..] ...           for every group: the forest is rebuilt, stream i is consumed and stream j is
+//	            materialised INSIDE i's consumer callback at i's first element (k inside j's, ...); a stream that
+//	            delivers nothing has the rest of its group materialised right after it returned
+//	    observation "; zip <group>:<opened, sorted>/<closed, sorted> ..." / "; nest ...": the ids as MULTISETS after
+//	    everything returned (lock probes count Lock / Unlock calls per id: they can be held more than once).  Elements
+//	    are not compared (one root cursor is shared by overlapping materialisations: F6).  Streams below a concurrent
+//	    map are never part of a group (its channel fields are shared by overlapping materialisations: F7; the
+//	    observation of such a group is "<group>:skip").
 //
 //	Q <sep|pack|sepn|packn> n=<rows> w=<width> caps=<k:m,...> <mode> | <chain P> | <chain Q> | <chain post>
 //	    (implementation: c17_query.go)
 //	    chain := "-" | stage.stage...      val := c<int> | r<idx> | n(v,v) nvl | p(v,v) numeric + | g(a,b,t,f) selector over the
 //	                                              condition a > b | k(v) cast integer -> decimal -> integer
+//	                                              | u<s|a|m|x|c>(<idx>+<idx>..) ReduceFieldValue over the named columns: sum,
+//	                                                avg (cast back to integer), min, max, count; u<op>(*) over all columns
 //	    stage := A<val> append field | S<val>+<val>.. select fields (a ref may name an already selected field)
 //	           | D drop the rows of odd seconds (harness filter, hands rows on)
 //	           | R<idx>=<val> ReplaceField | O<idx> OverrideFieldMetadata (rows handed on) | X<idx>+.. DropFields
 //	           | F<val> SingleField | C<val>,<val> Condition val > val (rows handed on)
-//	           | B<idx>[d|r|a<p>|f<p>|l<p>] ToDatasource(column idx) -> [Delta | Rate, cast back to integer | datasource
-//	             aligner without fill / forward fill / linear, period p half seconds] -> FromDatasource
+//	           | B<idx>[d|r|a<p>|f<p>|l<p>|o] ToDatasource(column idx) -> [Delta | Rate, cast back to integer | datasource
+//	             aligner without fill / forward fill / linear, period p half seconds | datasource-level
+//	             OverrideFieldMetadata (new urn + a custom-metadata map)] -> FromDatasource
+//	    (O and B<idx>o hand the library a caller-made custom-metadata map.)
+//	    STAGE OBJECTS ARE SHARED: every field value / filter / datasource filter is made once per distinct list of
+//	    construction arguments (refs and reduced columns by urn, new urns by name) and that one Go object is used for
+//	    every occurrence in P, Q, the post chain(s) and every execution.
 //	           | G<p>[f|l] report AlignerFilter (fixed period of p half seconds; forward fill / linear gap filling)
 //	    One shared static source: n rows one second apart, cell j of row i = 100 i + j + 1 (layouts with the suffix n: the
 //	    last column is optional and nil in the rows i = 1 mod 3); row slices with spare capacity k (sep: make([]any,w,w+k)
@@ -43,10 +62,15 @@ package run
 //	                 plain source under the t / v metadata: the middle side's rows are the caller's rows)
 //	           tj<I|L|F><s|a>   J1 = post(Join[S, P(T)]) and J2 = post(Join[S, Q(T)]) over the shared rows, consumed one
 //	                 after the other (s) or alternately (a);  tk…: the sides swapped (Join[P(T), S], Join[Q(T), S])
+//	           seqs | alts | tj<I|L|F><s|a>s | tk..s   the same with ONE tag: the new urns of Q are named like P's, so equal
+//	                 stages at equal positions over equal columns are the same filter object in both pipelines
 //	    After all consumption ended the plain static source and then every result datasource are executed AGAIN.
 //	    observation: for every k:m "[k:m P=<rows> aP=<memory of every row: c<i> the caller's row i, f its own, d<j> shared
 //	    with the earlier row j> mP=<urns> Q=<rows> aQ=.. mQ=<urns> u=<caller data unchanged>
-//	    x=<the source executed again delivers the original rows> y=<every pipeline executed again delivers what it did>]"
+//	    x=<the source executed again delivers the original rows> y=<every pipeline executed again delivers what it did>
+//	    k=<everything reachable from the construction-time objects the caller handed over (urn lists, selected-field
+//	    lists, override maps, filter lists, datasource lists; unexported fields, maps and spare capacity included) hashes as
+//	    it did when they were made>]"
 //	    (one result: J=, mJ=).  Everything is formatted at the very end.  Timestamps: seconds after the base instant
 //	    ("<n>h" = n half seconds when not whole).
 
@@ -326,6 +350,17 @@ func c17ExecD(text string) string {
 		if ord == "" {
 			continue
 		}
+		if kind, groups, isOv := c17CutOverlap(ord); isOv {
+			sb.WriteString(" ; " + kind)
+			for _, g := range strings.Fields(groups) {
+				res, ok := c17Overlap(ctx, root, ds, kind, g)
+				if !ok {
+					return "bad-case"
+				}
+				sb.WriteString(" " + g + ":" + res)
+			}
+			continue
+		}
 		rec := &c17Rec{}
 		all := c17BuildForest(root, ds, rec)
 		sb.WriteString(" ; all")
@@ -343,6 +378,88 @@ func c17ExecD(text string) string {
 		}
 	}
 	return sb.String()
+}
+
+func c17CutOverlap(ord string) (kind, groups string, ok bool) {
+	for _, k := range []string{"zip", "nest"} {
+		if strings.HasPrefix(ord, k+" ") {
+			return k, ord[len(k)+1:], true
+		}
+	}
+	return "", "", false
+}
+
+// does a concurrent map lie on the path of stream i?
+func c17ConcOnPath(ds []c17Deriv) []bool {
+	out := make([]bool, len(ds)+1)
+	for j, d := range ds {
+		out[j+1] = out[d.parent] || d.kind == 'C'
+	}
+	return out
+}
+
+func c17SortedInts(l []int) string {
+	cp := append([]int(nil), l...)
+	sort.Ints(cp)
+	return c17Ints(cp)
+}
+
+// one overlapping materialisation of the stream values listed in group (a fresh forest): all of them are open at the
+// same time (zip) / each one is materialised inside the consumer callback of the one before (nest)
+func c17Overlap(ctx context.Context, root byte, ds []c17Deriv, kind, group string) (string, bool) {
+	var idx []int
+	for _, t := range strings.Split(group, ",") {
+		i, err := strconv.Atoi(t)
+		if err != nil || i < 0 || i > len(ds) {
+			return "", false
+		}
+		idx = append(idx, i)
+	}
+	if len(idx) == 0 || len(idx) > 6 {
+		return "", false
+	}
+	conc := c17ConcOnPath(ds)
+	for _, i := range idx {
+		if conc[i] {
+			return "skip", true
+		}
+	}
+	rec := &c17Rec{}
+	all := c17BuildForest(root, ds, rec)
+	failed := false
+	if kind == "zip" {
+		srcs := make([]stream.Stream[int], len(idx))
+		for k, i := range idx {
+			srcs[k] = all[i]
+		}
+		if _, err := stream.ZipN(srcs...).Collect(ctx); err != nil {
+			failed = true
+		}
+	} else {
+		var run func(k int)
+		run = func(k int) {
+			ran := false
+			err := all[idx[k]].Consume(ctx, func(int) {
+				if !ran {
+					ran = true
+					if k+1 < len(idx) {
+						run(k + 1)
+					}
+				}
+			})
+			if err != nil {
+				failed = true
+			}
+			if !ran && k+1 < len(idx) {
+				run(k + 1)
+			}
+		}
+		run(0)
+	}
+	if failed {
+		return "err", true
+	}
+	return c17SortedInts(rec.opened) + "/" + c17SortedInts(rec.closed), true
 }
 
 // ---------------------------------------------------------------------------------------------
@@ -407,7 +524,116 @@ func c17EmitD(c *Ctx, root byte, ds []c17Deriv) {
 		}
 		lens = append(lens, l)
 	}
-	c.Case((fan && adding >= 2) || concSpare, fmt.Sprintf("D r%c %s | %s", root, c17FmtDerivs(ds), c17Orders(c, len(ds)+1)))
+	ords := c17Orders(c, len(ds)+1)
+	over := ""
+	if !(c.Thorough && len(ds) == 5 && c.Rng.Intn(2) == 0) { // (thorough: every second forest of exactly 5 derivations)
+		over = c17RandOverlaps(c, ds)
+	}
+	c.Case((fan && adding >= 2) || concSpare, fmt.Sprintf("D r%c %s | %s%s", root, c17FmtDerivs(ds), ords, over))
+}
+
+func c17FmtGroup(g []int) string {
+	parts := make([]string, len(g))
+	for i, v := range g {
+		parts[i] = strconv.Itoa(v)
+	}
+	return strings.Join(parts, ",")
+}
+
+// a seeded group of stream values to materialise at overlapping times: the same value twice, child and parent (either
+// order), two siblings, any two, any three — never a stream below a concurrent map
+func c17RandGroup(c *Ctx, ds []c17Deriv, elig []int) []int {
+	pick := func() int { return elig[c.Rng.Intn(len(elig))] }
+	isElig := map[int]bool{}
+	for _, i := range elig {
+		isElig[i] = true
+	}
+	switch c.Rng.Intn(6) {
+	case 0:
+		i := pick()
+		return []int{i, i}
+	case 1, 2:
+		// child and parent
+		for try := 0; try < 4; try++ {
+			i := pick()
+			if i > 0 && isElig[ds[i-1].parent] {
+				if c.Rng.Bool() {
+					return []int{i, ds[i-1].parent}
+				}
+				return []int{ds[i-1].parent, i}
+			}
+		}
+	case 3:
+		// siblings
+		for try := 0; try < 4; try++ {
+			i := pick()
+			if i == 0 {
+				continue
+			}
+			for _, j := range elig {
+				if j != i && j > 0 && ds[j-1].parent == ds[i-1].parent {
+					return []int{i, j}
+				}
+			}
+		}
+	case 4:
+		return []int{pick(), pick(), pick()}
+	}
+	return []int{pick(), pick()}
+}
+
+func c17RandOverlaps(c *Ctx, ds []c17Deriv) string {
+	conc := c17ConcOnPath(ds)
+	var elig []int
+	for i, b := range conc {
+		if !b {
+			elig = append(elig, i)
+		}
+	}
+	if len(elig) == 0 {
+		return ""
+	}
+	var sb strings.Builder
+	for _, kind := range []string{"zip", "nest"} {
+		sb.WriteString(" ; " + kind)
+		for g := 0; g < 2; g++ {
+			sb.WriteString(" " + c17FmtGroup(c17RandGroup(c, ds, elig)))
+		}
+	}
+	return sb.String()
+}
+
+// every pair of stream values of the forest zipped (i <= j) and nested (both orders, also a value inside itself), and
+// all of them at once
+func c17EmitDAllOverlaps(c *Ctx, root byte, ds []c17Deriv) {
+	n := len(ds) + 1
+	var zips, nests []string
+	for i := 0; i < n; i++ {
+		for j := 0; j < n; j++ {
+			if i <= j {
+				zips = append(zips, fmt.Sprintf("%d,%d", i, j))
+			}
+			nests = append(nests, fmt.Sprintf("%d,%d", i, j))
+		}
+	}
+	if n >= 3 {
+		var fw, rv []int
+		for i := 0; i < n; i++ {
+			fw = append(fw, i)
+			rv = append(rv, n-1-i)
+		}
+		zips = append(zips, c17FmtGroup(fw))
+		nests = append(nests, c17FmtGroup(fw), c17FmtGroup(rv))
+	}
+	adding := 0
+	for _, d := range ds {
+		if d.kind == 'W' || d.kind == 'K' {
+			adding++
+		}
+	}
+	// non-trivial: at least one lifecycle-adding derivation with a stream derived from it or next to it
+	c.Case(adding >= 1 && n >= 3, fmt.Sprintf("D r%c %s | %s ; zip %s ; nest %s", root, c17FmtDerivs(ds), c17Ints([]int{0}),
+		strings.Join(zips, " "), strings.Join(nests, " ")))
 }
 
 func c17Substitute(c *Ctx, ds []c17Deriv) []c17Deriv {
@@ -452,6 +678,35 @@ func genC17D(c *Ctx) {
 			kinds = []byte{'W', 'K', 'F', 'L', 'C'}
 		}
 		rec(nil, n, kinds)
+	}
+	// exhaustive, overlapping materialisation: all forests of up to 3 (thorough 4) derivations over {lifecycle, lock,
+	// Filter, Limit} (thorough also Skip, Peek, Map) x roots, EVERY pair of stream values zipped and nested
+	{
+		okinds := []byte{'W', 'K', 'F', 'L'}
+		if c.Thorough {
+			okinds = []byte{'W', 'K', 'F', 'L', 'S', 'P', 'M'}
+		}
+		var orec func(ds []c17Deriv, n int)
+		orec = func(ds []c17Deriv, n int) {
+			if len(ds) == n {
+				for _, root := range []byte{'0', '1', '2'} {
+					c17EmitDAllOverlaps(c, root, ds)
+				}
+				return
+			}
+			for p := 0; p <= len(ds); p++ {
+				for _, k := range okinds {
+					orec(append(append([]c17Deriv(nil), ds...), c17Deriv{p, k}), n)
+				}
+			}
+		}
+		for n := 0; n <= 3; n++ {
+			orec(nil, n)
+		}
+		if c.Thorough {
+			okinds = []byte{'W', 'K', 'F', 'L'}
+			orec(nil, 4)
+		}
 	}
 	// seeded random larger forests (up to 10 derivations: lifecycle slices of every length 0..11)
 	cnt := c.Pick(400, 20000)
